@@ -64,11 +64,22 @@ pub struct History {
     pub share_ids: Vec<u32>,
     pub class: &'static str,
     pub plain: bool,
+    /// selects among the well-formed encodings of each symbol (0: the Windows-like ones)
+    pub variant: u64,
 }
 
-fn build_symbol(s: &Session, sym: usize, share_id: u32, current_share: u32, k: usize) -> (B, Wrap, usize) {
+const DESCRIPTORS: [&[u8]; 5] = [&[0], &[], b"RDP\0", &[0x41], &[0x20; 64]];
+
+fn build_symbol(s: &Session, sym: usize, share_id: u32, current_share: u32, k: usize, variant: u64) -> (B, Wrap, usize) {
     let p = &s.profile;
     let sid = current_share;
+    let mut vr = Rng::derive(variant, "C12-variant", sym as u64, k as u64);
+    let desc: &[u8] = if variant == 0 { &[0] } else { DESCRIPTORS[vr.below(DESCRIPTORS.len() as u64) as usize] };
+    if variant != 0 && (SYMS[sym] == "demand-active" || SYMS[sym] == "demand-active-same-share-id") && vr.chance(2, 3) {
+        let mut p2 = p.clone();
+        p2.caps = crate::gen::caps_varied(&mut vr);
+        return (proto::demand_active(&p2, share_id), Wrap::Sdi, 0);
+    }
     match SYMS[sym] {
         "demand-active" | "demand-active-same-share-id" => (proto::demand_active(p, share_id), Wrap::Sdi, 0),
         "synchronize" => (proto::synchronize(p, sid, p.user_id), Wrap::Sdi, 0),
@@ -78,11 +89,11 @@ fn build_symbol(s: &Session, sym: usize, share_id: u32, current_share: u32, k: u
         "font-map" => (proto::font_map(p, sid), Wrap::Sdi, 0),
         "set-error-info" => (proto::set_error_info(p, sid, 0x0000000C), Wrap::Sdi, 0),
         "unknown-data" => (proto::other_data_pdu(p, sid, if k % 2 == 0 { 0x26 } else { 0x36 }, &[0u8; 12]), Wrap::Sdi, 0),
-        "deactivate-all" => (proto::deactivate_all(p, sid), Wrap::Sdi, 0),
+        "deactivate-all" => (proto::deactivate_all_with(p, sid, desc), Wrap::Sdi, 0),
         "multi-pdu" => {
             let mut b = B::new();
             b.nest("a", &proto::set_error_info(p, sid, 1));
-            b.nest("b", &proto::deactivate_all(p, sid));
+            b.nest("b", &proto::deactivate_all_with(p, sid, desc));
             b.nest("c", &proto::other_data_pdu(p, sid, 0x26, &[0u8; 8]));
             (b, Wrap::Sdi, 0)
         }
@@ -109,7 +120,7 @@ fn new_events(s: &Session, from: usize) -> (Vec<ClientMsg>, usize) {
 
 pub fn check_history(h: &History, rep: &mut Report) {
     rep.eval();
-    let desc = json!({"class": h.class, "plain": h.plain, "syms": h.syms.iter().map(|s| SYMS[*s]).collect::<Vec<_>>(), "sym_idx": h.syms, "share_ids": h.share_ids});
+    let desc = json!({"class": h.class, "plain": h.plain, "syms": h.syms.iter().map(|s| SYMS[*s]).collect::<Vec<_>>(), "sym_idx": h.syms, "share_ids": h.share_ids, "variant": h.variant});
     let opened = mon::guarded(|| if h.plain { session::open_plain(session::full_profile(), true) } else { session::open_real(session::full_profile(), true) });
     let mut s = match opened {
         Ok(Ok(s)) => s,
@@ -130,7 +141,7 @@ pub fn check_history(h: &History, rep: &mut Report) {
     let mut malformed0 = s.server.with(|sv| sv.malformed.len());
     for (k, sym) in h.syms.iter().enumerate() {
         let share = h.share_ids[k % h.share_ids.len()];
-        let (b, wrap, nrects) = build_symbol(&s, *sym, share, cur_share, k);
+        let (b, wrap, nrects) = build_symbol(&s, *sym, share, cur_share, k, h.variant);
         let (next, must_finalize, must_bitmaps) = step(st, *sym, nrects);
         let tag = format!("{:?}/{}", st, SYMS[*sym]);
         s.push(SYMS[*sym], &b, wrap);
@@ -238,7 +249,7 @@ fn history_from_index(mut idx: u64, len: usize, seed: u64) -> History {
         idx /= NSYM;
     }
     let mut r = Rng::derive(seed, "C12-sid", len as u64, idx);
-    History { syms, share_ids: vec![0x000103ea, r.u32(), 0x000103ea], class: "exhaustive", plain: false }
+    History { syms, share_ids: vec![0x000103ea, r.u32(), 0x000103ea], class: "exhaustive", plain: false, variant: if r.chance(1, 2) { 0 } else { r.next() | 1 } }
 }
 
 fn random_history(seed: u64, idx: u64) -> History {
@@ -263,7 +274,8 @@ fn random_history(seed: u64, idx: u64) -> History {
     }
     let nid = r.range(1, 3) as usize;
     let share_ids: Vec<u32> = (0..nid).map(|_| if r.chance(1, 2) { 0x000103ea } else { r.u32() }).collect();
-    History { syms, share_ids, class: "random-long", plain: false }
+    let variant = if r.chance(1, 3) { 0 } else { r.next() | 1 };
+    History { syms, share_ids, class: "random-long", plain: false, variant }
 }
 
 pub fn run(cfg: &Cfg) -> Report {
@@ -311,6 +323,7 @@ pub fn replay(_cfg: &Cfg, v: &Value) -> Report {
             share_ids: v["share_ids"].as_array().unwrap().iter().map(|x| x.as_u64().unwrap() as u32).collect(),
             class: "replay",
             plain: v["plain"].as_bool().unwrap_or(false),
+            variant: v["variant"].as_u64().unwrap_or(0),
         }
     };
     check_history(&h, &mut rep);
